@@ -15,7 +15,14 @@ implicit return at the end of the body) and the evaluator one call path per shap
 parameters, kind of returned expression (constant, None, nothing, a local, an expression reading the iterated container, a
 fresh list, a native iteration of the container), explicit/implicit return at the end of the def, position of the `return`
 in the loop body, and the call path (direct, through a variable, lambda-wrapped, named / *args, nested def, native callback,
-frozen module + load())."""
+frozen module + load()).
+Two more factors, each a block of the product: "overlap" - a second iteration of the SAME container (same object through one or
+two names: nested for, for left by break, list/dict/2-clause comprehension, every iterating native) starts and ends inside the
+iteration under test, one or two levels deep, BEFORE the mutation attempt (the lock is a counter: the attempt must still be refused,
+Lock/Nested.v nested_keeps_locked / trace_blocked; a stop that resets the count is refuted there); "position" - the element at which
+the body or the callback of a native consumer (every native with an `invoke_pos` call site in the sources: sorted/min/max(key=), map,
+filter - check_callback_catalogue) attempts the mutation: first, middle, LAST of three, the only one of a one-element container
+(Lock/Nested.v consumer_callback_blocked; a consumer that stops before the last element's callback is refuted there)."""
 import itertools
 import json
 import os
@@ -32,7 +39,9 @@ TRUSTED = ["tools/props/C12.py: the two renderers of one abstract program (Starl
            "Lock/Bc.v abstracts the bytecode to a tree-shaped skeleton (a loop instruction carries its body; jumps are the "
            "signals Next/Brk/Cont/Ret/Error of a big-step interpreter); the iterator slot of a loop is identified with the container "
            "(for a list: its backing array, which cannot be replaced while the count is non-zero)",
-           "harness bin eval (`then` sources evaluated on the same Evaluator and Module after a failure)"]
+           "harness bin eval (`then` sources evaluated on the same Evaluator and Module after a failure)",
+           "Lock/Nested.v sees overlapping iterations and native consumers as traces of start / stop / attempt events on one container "
+           "(the tie runs the corresponding programs on both interpreters of Lock/Bc.v and on the implementation)"]
 ASSUMPTIONS = ["the static empty array (VALUE_EMPTY_ARRAY) is exempt from counting in the code; the model counts uniformly because a list "
                "backed by it is empty and its iteration ends before any user code runs (empty containers are part of the corpus)",
                "`return <expr>` evaluates <expr> after the InstrIterStop sequence; the model's return carries no expression (the tie "
@@ -90,6 +99,65 @@ BUILTIN_COQ = {"sorted-key": "BSorted", "min-key": "BMin", "max-key": "BMax", "m
 
 
 # ------------------------------------------------------------------------------------------------
+# factor "overlap": a second iteration of the SAME container (through the same or another name) that starts and ends inside the
+# iteration under test, before the mutation attempt.  name -> (Starlark lines with N = the iterated name, Gallina statement)
+INNERS = {
+    "for": (["for j in N:", "    pass"], "SFor 0 BNil"),
+    "for-break": (["for j in N:", "    if j == 2:", "        break"], "SFor 0 (blk [SIf 1 (blk [SBreak]) BNil])"),
+    "list-compr": (["_q = [j for j in N]"], "SFor 0 BNil"),
+    "dict-compr": (["_q = {j: 0 for j in N}"], "SFor 0 BNil"),
+    "list-compr-2": (["_q = [j for j in N for k in M]"], "SFor 0 (blk [SFor 0 BNil])"),
+    "sorted": (["_q = sorted(N)"], "SBuiltin BSorted None 0 BNil"),
+    "list": (["_q = len(list(N))"], "SBuiltin BListOf None 0 BNil"),
+    "tuple": (["_q = tuple(N)"], "SBuiltin BTupleOf None 0 BNil"),
+    "min": (["_q = min(N)"], "SBuiltin BMin None 0 BNil"),
+    "max": (["_q = max(N)"], "SBuiltin BMax None 0 BNil"),
+    "any": (["_q = any(N)"], "SBuiltin BAny (Some 1%nat) 0 BNil"),
+    "all": (["_q = all(N)"], "SBuiltin BAll None 0 BNil"),
+    "enumerate": (["_q = enumerate(N)"], "SBuiltin BEnumerate None 0 BNil"),
+    "zip": (["_q = zip(N, M)"], "SBuiltin BZip None 0 BNil"),
+    "reversed": (["_q = reversed(N)"], "SBuiltin BReversed None 0 BNil"),
+    "set": (["_q = set(N)"], "SBuiltin BSetOf None 0 BNil"),
+    "extend": (["_q = [0]", "_q.extend(N)"], "SBuiltin BExtend None 0 BNil"),
+    "map-filter": (["_q = filter(lambda e: e != 2, map(lambda e: e, N))"], "SBuiltin BMap None 0 BNil"),
+    "sorted-key-nested": (["_q = sorted(N, key=lambda e: len(list(M)))"], "SBuiltin BSorted None 0 (blk [SBuiltin BListOf None 0 BNil])"),
+}
+INNER_MAIN = ["for-break", "list-compr", "sorted"]      # crossed with every operation; the others with a few operations
+# the natives that call a Starlark callable per element of what they iterate: repo file -> number of `invoke_pos(` call sites
+# (min_max.rs: min/max with key=, twice in one body; other.rs: sorted with key=; extra.rs: filter, map) - all in CB_BUILTINS
+CALLBACK_SITES = {"starlark/src/stdlib/funcs/min_max.rs": 2, "starlark/src/stdlib/funcs/other.rs": 1, "starlark/src/stdlib/extra.rs": 2}
+
+
+def init_of(c):
+    if c.get("empty"):
+        return []
+    return INIT[c["kind"]][:c.get("size", 3)]
+
+
+def lit_of(c):
+    v = init_of(c)
+    if c["kind"] == "list":
+        return "[%s]" % ", ".join(str(e) for e in v)
+    if c["kind"] == "dict":
+        return "{%s}" % ", ".join("%d: %d" % e for e in v)
+    return "set([%s])" % ", ".join(str(e) for e in v)
+
+
+def inner_render(c, n0, n1):
+    """The overlapping iteration of a case: (Starlark lines, Gallina statements); n0/n1 = the two names of the container in scope."""
+    name = c.get("inner")
+    if not name:
+        return [], []
+    N, M = (n1, n0) if c.get("ialias") else (n0, n1)
+    lines, coq = INNERS[name]
+    lines = [re.sub(r"\bN\b", N, re.sub(r"\bM\b", M, l)) for l in lines]
+    if c.get("idepth", 1) == 2:         # one more level: the inner iteration runs inside a for over the other name
+        lines = ["for k2 in %s:" % M] + ind(lines)
+        coq = "SFor 0 (blk [%s])" % coq
+    return lines, [coq]
+
+
+# ------------------------------------------------------------------------------------------------
 # "def shape": how the def that contains the loop is declared, left and called (only for ctx == "def")
 
 RTYPES = ["", "int", "None", "list[int]", "typing.Any"]
@@ -136,6 +204,37 @@ def shape_blocks():
     }
 
 
+def family_blocks():
+    """The two factors added to the base product, as Cartesian blocks (same treatment as the def-shape blocks):
+    overlap-*: a second iteration of the same container (one or two names, one or two levels deep) comes and goes inside the
+               iteration under test before the mutation attempt (or in every pass of the body, for the exits that are not errors);
+    position:  the element at which the body / the callback of a native consumer attempts the mutation or fails (first, middle, LAST,
+               the only one of a one-element container)."""
+    allops = [(k, o[0]) for k in ("list", "dict", "set") for o in OPS[k]]
+    fewops = [("list", "append"), ("list", "setitem"), ("list", "pop"), ("dict", "setitem"), ("set", "add")]
+    cev = []
+    for construct in ("for", "nested-for"):
+        for via in ("inline", "callee"):
+            for ipos in ("in-if", "each"):
+                cev.append((construct, "mutate", via, ipos))
+        for ex in ("exhaustion", "break"):
+            cev.append((construct, ex, "inline", "each"))
+    for construct in ("list-compr", "dict-compr", "list-compr-2nd-clause") + tuple(CB_BUILTINS):
+        for ipos in ("in-if", "each"):
+            cev.append((construct, "mutate", "inline", ipos))
+    names = [(0, 0), (0, 1), (1, 0), (1, 1)]        # (the mutation goes through x / z, the inner iteration through x / z)
+    where = [("module", 1), ("def", 1), ("def", 2)]
+    pcv = [(b, "inline") for b in CB_BUILTINS + ["list-compr", "dict-compr", "for"]] + [("for", "callee")]
+    return {
+        "overlap-ops": [(("kind", "op"), allops), (("construct", "exit", "via", "ipos"), cev), ("inner", INNER_MAIN), (("alias", "ialias"), names),
+                        ("idepth", [1, 2]), (("ctx", "depth"), where[2:])],
+        "overlap-inner": [(("kind", "op"), fewops), (("construct", "exit", "via", "ipos"), cev), ("inner", sorted(INNERS)),
+                          (("alias", "ialias"), names[:3]), ("idepth", [1, 2]), (("ctx", "depth"), where[:1])],
+        "position": [(("kind", "op"), allops), (("size", "at"), [(3, 1), (3, 2), (3, 3), (1, 1)]), (("construct", "via"), pcv),
+                     ("exit", ["mutate", "fail"]), ("alias", [0, 1]), (("ctx", "depth"), where)],
+    }
+
+
 def block_row(factors, choice):
     c = {}
     for (name, values), j in zip(factors, choice):
@@ -157,11 +256,14 @@ def block_cases(factors):
     return [block_row(factors, ch) for ch in itertools.product(*[range(len(v)) for _, v in factors])]
 
 
-def block_covering(rng, factors, tries=24):
+def block_covering(rng, factors, tries=24, small=None):
     """Pairwise covering array of a Cartesian block, greedy: each row is the best of `tries` random rows that contain a
-    still uncovered pair.  -> (rows as descriptions, number of pairs)."""
+    still uncovered pair.  -> (rows as descriptions, number of pairs).  `small`: only the pairs in which one of the two factors has
+    at most that many values are required (every value of a large factor still meets every value of each small factor)."""
     need = set()
     for a, b in itertools.combinations(range(len(factors)), 2):
+        if small is not None and min(len(factors[a][1]), len(factors[b][1])) > small:
+            continue
         for x in range(len(factors[a][1])):
             for y in range(len(factors[b][1])):
                 need.add((a, x, b, y))
@@ -209,13 +311,13 @@ def exit_class(e, c=None):
 def product():
     """The whole finite product, as abstract case descriptions: the base product (default def shape) and the def-shape blocks."""
     out = base_product()
-    for factors in shape_blocks().values():
+    for factors in list(shape_blocks().values()) + list(family_blocks().values()):
         out += block_cases(factors)
     return out
 
 
 def product_size():
-    return len(base_product()) + sum(block_size(f) for f in shape_blocks().values())
+    return len(base_product()) + sum(block_size(f) for f in list(shape_blocks().values()) + list(family_blocks().values()))
 
 
 def base_product():
@@ -268,19 +370,37 @@ def render(c):
     _, op_star, op_coq = op_entry(c)
     recv = "z" if c["alias"] else "x"
     empty = bool(c.get("empty"))
-    # statement executed at the second element (index 1)
+    at = c.get("at", 2)                 # the element (value; index at-1) at which the body acts
+    ipos = c.get("ipos", "in-if")       # overlapping iteration: right before the action / at the start of every pass of the body
+    in_lines, in_coq = inner_render(c, "x", "z")
+    g_lines, g_coq_in = inner_render(c, "r", "q")
+    if g_lines:
+        g_lines = ["q = r"] + g_lines
+    # statement executed at the element `at` (default: the second one, index 1)
     act_star = {"fail": 'fail("boom")', "mutate": op_star.replace("R", "r")}.get(ex)          # inside g(e, r)
     act_inline = {"fail": 'fail("boom")', "mutate": op_star.replace("R", recv)}.get(ex)     # inside the loop body
     act_coq = {"fail": "SFail", "mutate": "SMutate %s 0" % op_coq}.get(ex)
-    data = ["x = %s" % (LIT_EMPTY if empty else LIT)[kind], "z = x", "y = [10, 20]"]
+    data = ["x = %s" % lit_of(c), "z = x", "y = [10, 20]"]
     defs = ["def g0(e, r):", "    return e"]
     if act_star:
-        defs += ["def g(e, r):", "    if e == 2:", "        " + act_star, "    return e"]
-    g_coq = "(SCall (blk [SIf 1 (blk [%s]) BNil]))" % act_coq if act_coq else "(SCall BNil)"
+        if ipos == "each":
+            defs += ["def g(e, r):"] + ind(g_lines) + ["    if e == %d:" % at, "        " + act_star, "    return e"]
+            g_coq = "(SCall (blk [%s]))" % "; ".join(g_coq_in + ["SIf %d (blk [%s]) BNil" % (at - 1, act_coq)])
+        else:
+            defs += ["def g(e, r):", "    if e == %d:" % at] + ind(g_lines, 2) + ["        " + act_star, "    return e"]
+            g_coq = "(SCall (blk [SIf %d (blk [%s]) BNil]))" % (at - 1, "; ".join(g_coq_in + [act_coq]))
+    else:
+        g_coq = "(SCall BNil)"
     gname = "g" if act_star else "g0"
 
     def body(var):
         """body of a for statement whose variable is `var`"""
+        bl, bc = body0(var)
+        if in_lines and ipos == "each" and not (via == "callee" and ex in ("fail", "mutate")):
+            return in_lines + bl, in_coq + bc
+        return bl, bc
+
+    def body0(var):
         if ex == "exhaustion":
             return ["pass"], []
         if ex == "continue":
@@ -301,7 +421,10 @@ def render(c):
             return ["if %s == 2:" % var, "    " + rs], ["SIf 1 (blk [%s]) BNil" % ret_coq]
         if via == "callee":
             return ["g(%s, %s)" % (var, recv)], [g_coq]
-        return ["if %s == 2:" % var, "    " + act_inline], ["SIf 1 (blk [%s]) BNil" % act_coq]
+        if ipos == "each":
+            return ["if %s == %d:" % (var, at), "    " + act_inline], ["SIf %d (blk [%s]) BNil" % (at - 1, act_coq)]
+        return (["if %s == %d:" % (var, at)] + ind(in_lines) + ["    " + act_inline],
+                ["SIf %d (blk [%s]) BNil" % (at - 1, "; ".join(in_coq + [act_coq]))])
 
     def blk(stmts):
         return "(blk [%s])" % "; ".join(stmts)
@@ -383,7 +506,7 @@ def render(c):
     show = "emit(list(x))" if kind == "set" else "emit(x)"
     then = [show, op_star.replace("R", recv), show, "y.append(0)"]
     init = {"list": "VList [%s]", "dict": "VDict [%s]", "set": "VSet [%s]"}[kind] % (
-        "" if empty else "; ".join("(%d, %d)" % e if kind == "dict" else str(e) for e in INIT[kind]))
+        "; ".join("(%d, %d)" % e if kind == "dict" else str(e) for e in init_of(c)))
     return "\n".join(src) + "\n", then, "[%s; VList [10; 20]]" % init, prog, op_coq, mods
 
 
@@ -469,11 +592,24 @@ def flat(kind, v):
     return [x for kv in v for x in kv] if kind == "dict" else list(v)
 
 
+def pre_err(kind, op, v):
+    """The read-only checks the code makes BEFORE it asks for mutable access (Lock/Model.v pre_check): error code or 0."""
+    if kind == "list" and op == "remove" and 2 not in v:
+        return 4
+    if kind == "list" and op in ("setitem", "augitem") and len(v) < 2:
+        return 3
+    if kind == "dict" and op == "augitem" and 2 not in dict(v):
+        return 5
+    return 0
+
+
 def spec(c):
     """What the property demands: (outcome of the program, content after it, outcome of the later mutation, content,
     outcome of a later mutation of the list iterated by the enclosing loops)."""
-    init = [] if c.get("empty") else INIT[c["kind"]]
+    init = init_of(c)
     r0 = {"fail": 2, "mutate": 1, "return-badtype": 11}.get(c["exit"], 0)
+    if c["exit"] == "mutate" and pre_err(c["kind"], c["op"], init):
+        r0 = pre_err(c["kind"], c["op"], init)      # refused before the lock is even looked at (nothing written either)
     if c.get("empty"):
         r0 = 0          # no element: no body runs
     st, v = ref_apply(c["kind"], c["op"], init)
@@ -552,7 +688,8 @@ def run_model(ctx, triples):
 
 def classify(c, impl, sp):
     cc, kc = construct_class(c["construct"]), c["kind"]
-    if impl[0] == sp[0] and impl[1] == sp[1] and impl[2] == 1 and sp[2] == 0 and impl[3] == impl[1]:
+    if impl[0] == sp[0] and impl[1] == sp[1] and impl[2] == 1 and sp[2] != 1 and impl[3] == impl[1]:
+        # (sp[2] is 0, or - one-element containers - the error the later operation meets on an unlocked container)
         return "C12/lock-retained/exit=%s/container=%s/construct=%s" % (exit_class(c["exit"], c), kc, cc)
     if impl[:4] == sp[:4] and impl[4] == 1:
         # the container under test was released (or never locked by a bytecode loop) but the list iterated by the enclosing for statements was not
@@ -573,6 +710,19 @@ def shape_text(c):
     return " f(%s)%s returning %s%s at %s%s, called %s" % (
         "annotated parameters" if g("ptype") else "plain parameters", " -> " + g("rtype") if g("rtype") else "", g("rval"),
         " (+ explicit return at the end)" if g("tail") else "", g("rpos"), "", g("call"))
+
+
+def family_text(c):
+    t = ""
+    if c.get("size") == 1:
+        t += " of one element"
+    if "at" in c:
+        t += " (the body acts at element %d of %d)" % (c["at"], c.get("size", 3))
+    if c.get("inner"):
+        t += " [overlapping iteration of the same container through %s, %d level(s) deep, %s: %s, finished before the attempt]" % (
+            "the other name" if c.get("ialias") != c.get("alias") else "the same name", c.get("idepth", 1),
+            "in every pass of the body" if c.get("ipos") == "each" else "right before the action", c["inner"])
+    return t
 
 
 def evaluate(ctx, cases, chunk=40000):
@@ -596,7 +746,9 @@ def evaluate(ctx, cases, chunk=40000):
 
 def evaluate_chunk(ctx, cases, cache):
     rendered = [render(c) for c in cases]
-    hc = [dict({"src": r[0], "then": r[1], "opts": {}}, **({"mods": r[5]} if r[5] else {})) for r in rendered]
+    # every program of the product ends within some dozens of ticks; the bound only matters when a mutation that must be refused is
+    # accepted and the loop then runs away (e.g. an insert before the current position in every pass): reported as unexpected outcome
+    hc = [dict({"src": r[0], "then": r[1], "opts": {"max_ticks": 100000}}, **({"mods": r[5]} if r[5] else {})) for r in rendered]
     rc, log, res = sv.run_harness_sharded(ctx, "eval", hc, timeout=900)
     ctx.log("implementation ran %d programs (rc=%s)" % (len(hc), rc))
     failures = []
@@ -615,7 +767,7 @@ def evaluate_chunk(ctx, cases, cache):
         ctx.log("Coq model ran %d distinct programs (both interpreters)" % len(order))
     st = {"agree_spec": 0, "model_faithful": 0, "model_repaired": 0, "retained": 0, "during_attempts": 0, "after_attempts": 0,
           "model_programs": len(order), "by_exit": {}, "by_construct": {}, "by_kind": {}, "by_rtype": {}, "by_call": {}, "by_rval": {},
-          "typed_return_in_loop": 0}
+          "typed_return_in_loop": 0, "overlap": 0, "position": {}}
     for c, r, x in zip(cases, rendered, res):
         impl = impl_obs(x)
         sp = spec(c)
@@ -625,6 +777,11 @@ def evaluate_chunk(ctx, cases, cache):
         st["by_exit"][c["exit"]] = st["by_exit"].get(c["exit"], 0) + 1
         st["by_construct"][c["construct"]] = st["by_construct"].get(c["construct"], 0) + 1
         st["by_kind"][c["kind"]] = st["by_kind"].get(c["kind"], 0) + 1
+        if c.get("inner"):
+            st["overlap"] += 1
+        if "at" in c:
+            pk = "single" if c.get("size") == 1 else {1: "first", 2: "middle", 3: "last"}[c["at"]]
+            st["position"][pk] = st["position"].get(pk, 0) + 1
         if c["ctx"] == "def":
             for fld, dst in (("rtype", "by_rtype"), ("call", "by_call"), ("rval", "by_rval")):
                 v = c.get(fld, SHAPE_DEFAULT[fld]) or "(none)"
@@ -658,9 +815,9 @@ def evaluate_chunk(ctx, cases, cache):
         key = classify(c, impl, sp)
         if "/lock-retained/" in key:
             st["retained"] += 1
-        what = ("%s: %s over a %s, exit=%s (%s, %s%s, nesting depth %d), operation %s through %s: implementation %s, specification %s "
+        what = ("%s: %s over a %s%s, exit=%s (%s, %s%s, nesting depth %d), operation %s through %s: implementation %s, specification %s "
                 "[program outcome, content after it, outcome of the later mutation, content, outcome of a later mutation of the enclosing loops' list]; Coq model as-is %s (iteration count left %s), "
-                "repaired %s" % (key, c["construct"], c["kind"], c["exit"], c.get("via"), c["ctx"], shape_text(c), c["depth"], c["op"],
+                "repaired %s" % (key, c["construct"], c["kind"], family_text(c), c["exit"], c.get("via"), c["ctx"], shape_text(c), c["depth"], c["op"],
                                  "an alias" if c["alias"] else "the same name", impl, sp, m[0], m[1], m[2]))
         if not (mf or mr):
             what += " -- and the model predicts neither"
@@ -731,10 +888,32 @@ def check_dir(ctx):
     return broken, seen
 
 
+def check_callback_catalogue():
+    """The natives that invoke a Starlark callable per element are found in the implementation's own sources (every `invoke_pos(`
+    under starlark/src/stdlib and the container method files): the catalogue CB_BUILTINS of the product must be complete."""
+    root = os.path.join(sv.REPO, "starlark", "src")
+    seen = {}
+    for sub in ("stdlib", os.path.join("values", "types")):
+        for d, _, files in os.walk(os.path.join(root, sub)):
+            for f in files:
+                if not f.endswith(".rs"):
+                    continue
+                path = os.path.join(d, f)
+                txt = re.sub(r"//[^\n]*", "", open(path, encoding="utf-8", errors="replace").read())
+                n = len(re.findall(r"\.invoke_pos\(", txt))
+                if n:
+                    seen[os.path.relpath(path, sv.REPO)] = n
+    if seen != CALLBACK_SITES:
+        return [("callback-catalogue", "natives that call back into Starlark per element: expected %s, the sources have %s - extend CB_BUILTINS "
+                 "(factor `position` of the product) to the new consumer" % (CALLBACK_SITES, seen))], seen
+    return [], seen
+
+
 def correspond(ctx):
     base = base_product()
     blocks = shape_blocks()
-    nprod = len(base) + sum(block_size(f) for f in blocks.values())
+    fam = family_blocks()
+    nprod = len(base) + sum(block_size(f) for f in list(blocks.values()) + list(fam.values()))
     corpus = load_corpus()
     shape_rows = {}
     if ctx.quick():
@@ -746,16 +925,28 @@ def correspond(ctx):
             extra = block_random(ctx.rng, factors, {"return": 160, "return-badtype": 40, "other-exits": 100}[name])
             shape_rows[name] = {"size": block_size(factors), "pairs": npairs, "covering_rows": len(rows), "random_rows": len(extra)}
             cases = cases + rows + extra
+        # the overlap / position blocks: pairwise covering array (overlap-*: every value of a large factor with every value of each
+        # factor of at most 5 values; position: all pairs) topped up at random
+        for name, factors in fam.items():
+            rows, npairs = block_covering(ctx.rng, factors, small=None if name == "position" else 5)
+            extra = block_random(ctx.rng, factors, 60)
+            shape_rows[name] = {"size": block_size(factors), "pairs": npairs, "covering_rows": len(rows), "random_rows": len(extra)}
+            cases = cases + rows + extra
         exhaustive = False
     else:
         cases = list(base)
         for name, factors in blocks.items():
             shape_rows[name] = {"size": block_size(factors), "exhaustive": True}
             cases += block_cases(factors)
+        for name, factors in fam.items():
+            shape_rows[name] = {"size": block_size(factors), "exhaustive": True}
+            cases += block_cases(factors)
         uncovered, exhaustive = 0, True
-    ctx.log("product=%d programs (base %d + def-shape blocks %s); running %d (+%d corpus); pairs left uncovered=%d"
+    ctx.log("product=%d programs (base %d + def-shape / overlap / position blocks %s); running %d (+%d corpus); pairs left uncovered=%d"
             % (nprod, len(base), {k: v["size"] for k, v in shape_rows.items()}, len(cases), len(corpus), uncovered))
     broken, dirs = check_dir(ctx)
+    cb_broken, cb_seen = check_callback_catalogue()
+    broken += cb_broken
     failures, st = evaluate(ctx, corpus + cases)
     ctx.log("agree-with-spec=%d lock-retained=%d match-model-as-is=%d match-model-repaired=%d failures=%d"
             % (st["agree_spec"], st["retained"], st["model_faithful"], st["model_repaired"], len(failures)))
@@ -781,8 +972,15 @@ def correspond(ctx):
                 "unconditional, else branch, after a comprehension over the same container, nested if} x annotated parameters x call "
                 "path {direct, variable, lambda, named, *args, nested def, native callback, frozen+load} x for/nested-for x depth 1..3 x "
                 "2 operations per kind x alias; [every other exit] x (return type, what ends the def) x parameters x call path {direct, "
-                "lambda, named, frozen+load}; quick = greedy pairwise-covering sample of the base product topped up at random + one "
-                "pairwise covering array per def-shape block (a pair inside a block is a triple with the exit) topped up at random, "
+                "lambda, named, frozen+load}; PLUS three blocks: [overlap-ops] every operation x (construct, exit, inline/callee, place of the inner "
+                "iteration {right before the mutation attempt, in every pass of the body}) x a second iteration of the SAME container "
+                "{for+break, comprehension, sorted} that starts and ends inside the iteration under test x (name of the mutation, name of "
+                "the inner iteration) x 1/2 inner levels; [overlap-inner] 5 operations x the same x every inner construct {for, for+break, "
+                "list/dict/2-clause comprehension, sorted, list, tuple, min, max, any, all, enumerate, zip, reversed, set, extend, "
+                "map+filter, sorted(key=) whose callback iterates again}; [position] every operation x element at which the body / the "
+                "callback acts {first, middle, last of 3, the only one of 1} x {sorted/min/max(key=), map, filter, list/dict "
+                "comprehension, for inline/callee} x {mutation attempt, fail} x alias x module/def/depth; quick = greedy pairwise-covering sample of the base product topped up at random + one "
+                "pairwise covering array per def-shape / overlap / position block (a pair inside a block is a triple with the exit) topped up at random, "
                 "thorough = exhaustive; 5 observations per program (program outcome, content, later mutation outcome, content, later mutation of the list iterated by the enclosing loops); "
                 "non-trivial = not a plain exhaustion at depth 1; distinct by description",
         "exhaustive": exhaustive,
@@ -797,6 +995,9 @@ def correspond(ctx):
         "input_distribution": {"exit": st["by_exit"], "construct": st["by_construct"], "kind": st["by_kind"],
                                "def_return_type": st["by_rtype"], "def_call_path": st["by_call"], "def_returned_expression": st["by_rval"]},
         "dir": dirs,
+        "callback_call_sites": cb_seen,
+        "overlap_programs": st["overlap"],
+        "position_programs": st["position"],
         "corpus": len(corpus),
         "samples": [{"case": cases[0], "src": ex[0], "then": ex[1], "coq": ex[3]}, cases[len(cases) // 2],
                     {"case": cases[-1], "src": ex2[0], "mods": ex2[5], "then": ex2[1], "coq": ex2[3]}],
@@ -827,7 +1028,12 @@ META = {
                   "followed by the InstrReturnCheckType step (SReturnT) -, calls, consuming builtins) compiled to the "
                   "Iter/Continue/Break/IterStop/Return skeleton, every non-error exit leaves every count as on entry; a return whose "
                   "type check fails leaves them as on entry too (Lock/Proofs.v return_check_failure_released, not among the pinned "
-                  "statements); native consumers release on every exit including errors. The clause 'released when an error propagates out of the loop' is REFUTED for the "
+                  "statements); native consumers release on every exit including errors. The lock is a counter (Lock/Nested.v): after n "
+                  "starts and m < n stops of iterations of one container the count is entry + n - m and every request is refused; for any "
+                  "interleaving of starts, stops and attempts every attempt made while an iteration is in progress is refused, content "
+                  "intact; the callback of a native consumer is refused at every element (first, middle, last, only) and the count is "
+                  "restored afterwards; the two weakenings (iter_stop resets the count / a consumer stops before the last element's "
+                  "callback) are refuted by vm_compute witnesses, and the tie carries both as factors (overlap, position). The clause 'released when an error propagates out of the loop' is REFUTED for the "
                   "interpreter as the code is (run_block returns on InstrControl::Err without iter_stop; vm_compute witness) and PROVED for a "
                   "repaired interpreter that unwinds the active iterators. The tie runs the finite product (exhaustive in the thorough tier) "
                   "on the real evaluator with follow-up evaluation on the same module and compares it with both interpreters of the model and "
